@@ -50,6 +50,9 @@ Proof.
   destruct (if inc then _ else _); repeat split.
 Qed.
 
+Lemma quiet_regclose C o : quiet o -> quiet (reg_close C o).
+Proof. intros Q. unfold reg_close. destruct (c_regcheck C); [exact Q|apply quiet_nil]. Qed.
+
 (* ---- the report loop only touches counters and pending flags ---- *)
 Definition same_core (a b : sk) : Prop :=
   s_trusted a = s_trusted b /\ s_pst a = s_pst b /\ s_perr a = s_perr b /\ s_shipid a = s_shipid b
@@ -121,10 +124,10 @@ Proof.
     + destruct (keep_this C _ k0 true) as [go o2] eqn:K.
       pose proof (quiet_keep C (upd h k0 (set_pst (get h k0) ConnectionStateReceivedPairingRequest)) k0 true) as Q.
       rewrite K in Q. cbn [snd] in Q.
-      destruct go; cbn [snd]; rewrite !dials_app, (proj1 Q); intros [].
+      destruct go; cbn [snd]; rewrite !dials_app, ?(proj1 (quiet_regclose C _ Q)), (proj1 Q); intros [].
     + destruct (keep_this C h k0 true) as [go o2] eqn:K.
       pose proof (quiet_keep C h k0 true) as Q. rewrite K in Q. cbn [snd] in Q.
-      destruct go; cbn [snd]; rewrite !dials_app, (proj1 Q); intros [].
+      destruct go; cbn [snd]; rewrite !dials_app, ?(proj1 (quiet_regclose C _ Q)), (proj1 Q); intros [].
   - intros [].
   - intros [].
   - (* closed *)
@@ -138,7 +141,7 @@ Proof.
   - (* fire *)
     destruct (s_pend (get h k0)) as [n|]; [|intros []].
     destruct (c_gprep C && h_down h) eqn:G; [intros []|].
-    destruct (negb (option_eqb N.eqb _ _)); [intros []|].
+    destruct (negb (option_eqb N.eqb _ _)); [cbn [snd]; destruct (c_stale C); [rewrite (proj1 (quiet_reannounce C _))|]; intros []|].
     destruct (negb (may_dial (get h k0))) eqn:M; [intros []|].
     destruct (isSome (s_reg (get h k0))) eqn:R; [intros []|].
     destruct (c_ginit C && h_down h).
@@ -153,7 +156,7 @@ Proof.
     destruct (keep_this C _ k0 false) as [go o2] eqn:K.
     pose proof (quiet_keep C (upd h k0 (set_dialing (get h k0) (N.pred (s_dialing (get h k0))))) k0 false) as Q.
     rewrite K in Q. cbn [snd] in Q.
-    destruct go; cbn [snd]; rewrite !dials_app, (proj1 Q).
+    destruct go; cbn [snd]; rewrite !dials_app, ?(proj1 (quiet_regclose C _ Q)), (proj1 Q).
     + intros [].
     + rewrite (proj1 (quiet_reannounce C _)). intros [].
   - destruct (N.eqb (s_dialing (get h k0)) 0); [intros []|].
@@ -334,7 +337,7 @@ Lemma table_guards :
 Proof. repeat split. Qed.
 
 (* no slack: a hub whose Shutdown sets no flag does dial afterwards *)
-Definition noflag_cfg : cfg := mkCfg [0] (fun _ => false) 2 false false false false false.
+Definition noflag_cfg : cfg := mkCfg [0] (fun _ => false) 2 false false false false false false false.
 Lemma shutdown_without_flag_dials :
   dials_of (snd (hrun noflag_cfg (hub0 true) [LRegister 0; LReport [0]; LShutdown; LFire 0])) = [0].
 Proof. vm_compute. reflexivity. Qed.
@@ -378,12 +381,12 @@ Proof.
   - destruct (queued (get h k0)).
     + destruct (keep_this C _ k0 true) as [go o2] eqn:K.
       pose proof (quiet_keep C (upd h k0 (set_pst (get h k0) ConnectionStateReceivedPairingRequest)) k0 true) as Q.
-      rewrite K in Q. cbn [snd] in Q. destruct Q as (_ & Q & _).
-      destruct go; cbn [snd]; rewrite !creates_app, Q; cbn; [|intros []].
+      rewrite K in Q. cbn [snd] in Q. pose proof (quiet_regclose C _ Q) as (_ & Q' & _). destruct Q as (_ & Q & _).
+      destruct go; cbn [snd]; rewrite !creates_app, ?Q', Q; cbn; [|intros []].
       intros [E|[]]. inversion E; subst. reflexivity.
     + destruct (keep_this C h k0 true) as [go o2] eqn:K.
-      pose proof (quiet_keep C h k0 true) as Q. rewrite K in Q. cbn [snd] in Q. destruct Q as (_ & Q & _).
-      destruct go; cbn [snd]; rewrite !creates_app, Q; cbn; [|intros []].
+      pose proof (quiet_keep C h k0 true) as Q. rewrite K in Q. cbn [snd] in Q. pose proof (quiet_regclose C _ Q) as (_ & Q' & _). destruct Q as (_ & Q & _).
+      destruct go; cbn [snd]; rewrite !creates_app, ?Q', Q; cbn; [|intros []].
       intros [E|[]]. inversion E; subst. reflexivity.
   - intros [].
   - intros [].
@@ -397,8 +400,8 @@ Proof.
   - destruct (N.eqb (s_dialing (get h k0)) 0); [intros []|].
     destruct (keep_this C _ k0 false) as [go o2] eqn:K.
     pose proof (quiet_keep C (upd h k0 (set_dialing (get h k0) (N.pred (s_dialing (get h k0))))) k0 false) as Q.
-    rewrite K in Q. cbn [snd] in Q. destruct Q as (_ & Q & _).
-    destruct go; cbn [snd]; rewrite !creates_app, Q.
+    rewrite K in Q. cbn [snd] in Q. pose proof (quiet_regclose C _ Q) as (_ & Q' & _). destruct Q as (_ & Q & _).
+    destruct go; cbn [snd]; rewrite !creates_app, ?Q', Q.
     + cbn. intros [E|[]]. inversion E; subst. reflexivity.
     + rewrite (proj1 (proj2 (quiet_reannounce C _))). intros [].
   - destruct (N.eqb (s_dialing (get h k0)) 0); [intros []|].
